@@ -26,7 +26,9 @@ PROP = "C19"
 THEOREMS = [
     "Verif.C19.cache_inv",
     "Verif.C19.purity_untruncated",
-    "Verif.C19.derive_preserves_source_partial",
+    "Verif.C19.derive_preserves_source",
+    "Verif.C19.reachable_good",
+    "Verif.C19.sliceClosed",
     "Verif.C19.num_frames_idempotent",
     "Verif.C19.F5_witness",
     "Verif.C19.purity_after_repair_partial",
